@@ -43,6 +43,8 @@ mod c20;
 #[path = "../../common/allocmon.rs"]
 mod allocmon;
 mod cli;
+mod tty;
+mod ttylanes;
 mod edits;
 mod ctx;
 mod ioscript;
